@@ -7,7 +7,9 @@ after EVERY put performed by a save, a fresh read-only cassette checks "discover
 import random
 
 from vlib import env
-from vlib.fakes3 import FakeS3, InjectedCrash
+from vlib.fakes3 import FakeS3, InjectedCrash, ClientError
+
+REJECT_CODES = ['SlowDown', 'ServiceUnavailable', 'InternalError', 'RequestLimitExceeded', 'Throttling', '503', 'RequestTimeout']
 
 PROPERTY = 'C15'
 LEVEL = 'fault_enumeration'
@@ -193,11 +195,28 @@ class Case(object):
                             pool.remove((pi, rec))
                         self.saves_seen += 1
                         crash_now = self.crash is not None and self.crash[0] == self.saves_seen
-                        if crash_now:
+                        reject = crash_now and len(self.crash) > 2
+                        if reject:
+                            # not a crash: the bucket refuses put number m of this save k consecutive times (an error response shaped like
+                            # the real client's); the process lives on whatever the save does about it
+                            fake.reject_puts = {'at': fake.mutations + self.crash[1], 'times': self.crash[3], 'code': REJECT_CODES[self.crash[3] % len(REJECT_CODES)]}
+                        elif crash_now:
                             fake.crash_at = fake.mutations + self.crash[1]
                         in_save[0] = 0
                         try:
-                            c.save_recording(rec)
+                            try:
+                                c.save_recording(rec)
+                            except ClientError:
+                                ctx.count('saves_that_passed_on_a_refused_put')
+                                self.invariant(fake, 'after a save that raised because put %d was refused %d times' % (self.crash[1], self.crash[3]))
+                                continue
+                            finally:
+                                if reject:
+                                    if fake.reject_puts.get('rejected'):
+                                        ctx.count('puts_refused', fake.reject_puts['rejected'])
+                                    fake.reject_puts = None
+                            if reject:
+                                self.invariant(fake, 'after a save during which put %d was refused %d times' % (self.crash[1], self.crash[3]))
                             last_saved[ci] = rec
                             if len(fake.log) > nlog:
                                 saved_ids.append((ci, rec.id))
@@ -295,6 +314,14 @@ def run_case(ctx, seed, with_crashes=True):
                 cc.run()
                 ctx.case({'seed': seed, 'configs': cc.configs, 'steps': cc.steps, 'crash': (s, m)}, nontrivial=True)
                 ctx.count('crash_variants')
+        # one save of the sequence meets a bucket that refuses one of its puts 1..6 consecutive times
+        s = 1 + seed % max(nsaves, 1)
+        for m in (0, 1):
+            for k in ((1, 3, 6) if ctx.quick else (1, 2, 3, 4, 5, 6)):
+                cc = Case(ctx, seed, crash=(s, m, 'reject', k))
+                cc.run()
+                ctx.case({'seed': seed, 'configs': cc.configs, 'steps': cc.steps, 'crash': (s, m, 'reject', k)}, nontrivial=True)
+                ctx.count('refused_put_variants')
     return c
 
 
@@ -405,10 +432,47 @@ def wipe_then_resave(ctx):
                         break
 
 
+def large_recordings(ctx):
+    """Recordings of 100 kB .. 17 MB (33 and 65 MB in the thorough tier): whatever the size, what lookup discovers after the save is
+    completely fetchable and holds what was saved."""
+    import random as _random
+    sizes = [100 * 1024, 5 * 2 ** 20, 9 * 2 ** 20 + 7, 17 * 2 ** 20] + ([] if ctx.quick else [33 * 2 ** 20 + 1, 65 * 2 ** 20])
+    for prefix in ('', 'big/p'):
+        fake = FakeS3()
+        with fake.installed():
+            c = fake.cassette('writer', key_prefix=prefix, read_only=False)
+            saved = []
+            for n in sizes if prefix == '' else sizes[2:3]:
+                text = _random.Random(n).randbytes(n // 2).hex()
+                rec = c.create_new_recording('Op')
+                rec.set_data('payload', text)
+                rec.set_data('tail', ['end', n])
+                rec.add_metadata({'size': n})
+                c.save_recording(rec)
+                saved.append((rec.id, n, text))
+            rd = fake.cassette('reader', key_prefix=prefix, read_only=True)
+            ids = list(rd.iter_recording_ids('Op'))
+            for rid, n, text in saved:
+                w = {'large_recordings': True, 'prefix': prefix, 'size': n}
+                ctx.case(w)
+                ctx.count('large_recordings_saved')
+                if rid not in ids:
+                    continue             # (not discoverable: nothing is claimed)
+                try:
+                    got = rd.get_recording(rid)
+                    ok = got.get_data('payload') == text and got.get_data('tail') == ['end', n] and rd.get_recording_metadata(rid).get('size') == n
+                except Exception as ex:
+                    ctx.violation('a discoverable recording of %d characters is not completely fetchable: %s' % (n, type(ex).__name__), dict(w, error=repr(ex)[:200]))
+                    continue
+                if not ok:
+                    ctx.violation('a discoverable recording of %d characters does not hold what was saved' % n, w)
+
+
 def run(ctx):
     concurrent_saves(ctx)
     if ctx.shard == 0:
         wipe_then_resave(ctx)
+        large_recordings(ctx)
     from playback.tape_cassettes.s3.s3_tape_cassette import S3TapeCassette
     env.anchor(S3TapeCassette, '_save_recording')
     n = ctx.budget(300, 20000)
@@ -422,6 +486,8 @@ def run(ctx):
 
 
 def replay(ctx, w):
+    if w.get('large_recordings'):
+        return large_recordings(ctx)
     if w.get('wipe_then_resave'):
         return wipe_then_resave(ctx)
     if w.get('concurrent_saves'):
